@@ -250,7 +250,7 @@ def check_small_chain(case):
 
 STAGES = [
     Stage(name="nested", kind="hyp", check=check_nested, classify=classify_nested, strategy=strategy_nested,
-          budget={"quick": 250, "thorough": 1500}, key=lambda c: c["renderings"], floors={"mixed-adjacent": 0.25, "longer-than-250-characters": 0.05},
+          budget={"quick": 250, "thorough": 1500}, key=lambda c: c["renderings"], floors={"mixed-adjacent": 0.25, "longer-than-250-characters": 0.03},
           sample=lambda c: {"renderings": c["renderings"], "expected": ref.canonical(c["ast"])}),
     Stage(name="chains", kind="hyp", check=check_chain, classify=classify_chain, strategy=strategy_chain,
           budget={"quick": 250, "thorough": 1500}, key=lambda c: c["s"], floors={"mixed-adjacent": 0.5},
